@@ -45,7 +45,7 @@ class SymEnum:
         return int(self.code)
 
 
-def sym_descriptor_state(c, g, name, allow_empty=True, with_weight=True, list_len=0):
+def sym_descriptor_state(c, g, name, allow_empty=True, with_weight=True, list_len=0, neg_weights=False):
     """A BondDescriptor object in an arbitrary state the constructor can produce:
     `[]` (no symbol, no id, UNSPECIFIED order) or symbol in {$, <, >} (symbolic character),
     id '' or any integer >= 0, bond order one of the five codes the parser can assign.
@@ -78,12 +78,12 @@ def sym_descriptor_state(c, g, name, allow_empty=True, with_weight=True, list_le
     bd.bond_type = SymEnum(order)
     if with_weight:
         if list_len:
-            ts = [c.fresh_real(f"{name}_t{i}", 0) for i in range(list_len)]
+            ts = [c.fresh_real(f"{name}_t{i}", None if neg_weights else 0) for i in range(list_len)]
             bd.transitions = Arr(ts)
             bd.weight = bd.transitions.sum()
         else:
             bd.transitions = None
-            bd.weight = c.fresh_real(f"{name}_w", 0)
+            bd.weight = c.fresh_real(f"{name}_w", None if neg_weights else 0)
     else:
         bd.transitions = None
         bd.weight = 1.0
